@@ -155,22 +155,27 @@ End GenCert.
 Section BwCert.
 Variable V : Type.
 Variable veqb : V -> V -> bool.
-Variable A : bw_automaton V.
+(* the two arrays as lookup functions (built once per automaton, see [bw_cert_ok]) *)
+Variable sget : N -> option bstate.
+Variable oget : N -> option (output V).
 
-Definition bwc_sget := bw_sget V A.
-Definition bwc_oget := bw_oget V A.
 Definition bwc_child (s c : N) : res (option N) :=
-  if c <? 256 then bw_child bwc_sget s c else Ok None.
-Definition bwc_failof (s : N) : res N := st <- st_at bwc_sget s ;; Ok (b_fail st).
-Definition bwc_outposof (s : N) : res N := st <- st_at bwc_sget s ;; Ok (b_outpos st).
-Definition bwc_outat (pos : N) : res (output V) := out_at V bwc_oget pos.
+  if c <? 256 then bw_child sget s c else Ok None.
+Definition bwc_failof (s : N) : res N := st <- st_at sget s ;; Ok (b_fail st).
+Definition bwc_outposof (s : N) : res N := st <- st_at sget s ;; Ok (b_outpos st).
+Definition bwc_outat (pos : N) : res (output V) := out_at V oget pos.
 Definition byte_labels : list N := nseq 0 256.
 Definition bwc_plen (p : list N) : N := N.of_nat (length p).
 
-Definition bw_cert_ok (pvs : list (list N * V)) : bool :=
-  is_standard (bw_kind A)
-  && cert_ok V veqb bwc_child bwc_failof bwc_outposof bwc_outat byte_labels bwc_plen pvs
-             (length (bw_states A)) (length (bw_outputs A)).
-Definition bw_cert_count : N :=
-  cert_count V bwc_child byte_labels (length (bw_states A)).
+Definition bwc_cert_ok (pvs : list (list N * V)) (nslots nouts : nat) : bool :=
+  cert_ok V veqb bwc_child bwc_failof bwc_outposof bwc_outat byte_labels bwc_plen pvs nslots nouts.
 End BwCert.
+
+Definition bw_cert_ok {V} (veqb : V -> V -> bool) (A : bw_automaton V) (pvs : list (list N * V)) : bool :=
+  let sget := bw_sget V A in
+  let oget := bw_oget V A in
+  is_standard (bw_kind A)
+  && bwc_cert_ok V veqb sget oget pvs (length (bw_states A)) (length (bw_outputs A)).
+Definition bw_cert_count {V} (A : bw_automaton V) : N :=
+  let sget := bw_sget V A in
+  cert_count (bwc_child sget) byte_labels (length (bw_states A)).
